@@ -88,8 +88,10 @@ def gen_cases(tier, seed):
             for b in range(nv):
                 if a != b:
                     cases.append(dict(kind="prochist", name=name, first=a, then=b))
+    for fam in sorted(FAMILIES):
+        cases.append(dict(kind="confhist", family=fam))
     # subprocess cases first: they are the slowest, so they must not form the tail of the run
-    cases.sort(key=lambda c: 0 if c["kind"] == "prochist" else 1)
+    cases.sort(key=lambda c: 0 if c["kind"] in ("prochist", "confhist") else 1)
     return cases
 
 
@@ -101,7 +103,7 @@ def warmup():
 def exc_key(case, root):
     if case["kind"] == "op":
         return dict(site=case["spec"]["op"], when="raised " + type(root).__name__)
-    return dict(site=case["name"], when="raised " + type(root).__name__)
+    return dict(site=case.get("name", case.get("family", "?")), when="raised " + type(root).__name__)
 
 
 # ------------------------------------------------------------------ part A
@@ -369,6 +371,52 @@ def _mk_proxes():
     return P
 
 
+def _mk_families():
+    """Configuration families for the process-history check: name -> list of zero-argument callables.  Every ordered
+    pair (a, b) is executed back to back in one process and b's result is compared with what b returns as the first
+    and only call of a fresh interpreter (module-level caches keyed too coarsely, memoised designs, lazily built state)."""
+    import sigpy as sp
+    import sigpy.mri as mr
+    F = {}
+    x5 = _arr([5], np.complex128, 3)
+    co = np.array([[-1.7], [0.3], [1.2], [2.4]])
+    F["nufft.oversamp"] = [(lambda o=o: sp.nufft(x5.copy(), co.copy(), oversamp=o, width=4)) for o in (1.25, 1.375, 1.4, 2.0)]
+    y4 = _arr([4], np.complex128, 4)
+    F["nufft_adjoint.oversamp"] = [(lambda o=o: sp.nufft_adjoint(y4.copy(), co.copy(), [5], oversamp=o, width=4)) for o in (1.25, 1.375, 1.4, 2.0)]
+    x2 = _arr([2, 3], np.complex128, 5)
+    co2 = np.array([[-0.7, 0.4], [0.3, -1.2], [0.9, 1.1]])
+    F["nufft.width"] = [(lambda w=w: sp.nufft(x2.copy(), co2.copy(), oversamp=1.5, width=w)) for w in (3, 4, 5)]
+    x44 = _arr([4, 4], np.complex128, 6)
+    F["fwt.axes-order"] = [(lambda a=a: sp.fwt(x44.copy(), wave_name="db2", axes=a, level=1)) for a in (None, (0, 1), (1, 0), (-1, -2), (1,))]
+
+    def wav_adj(a):
+        W = sp.linop.Wavelet([4, 4], axes=a, wave_name="db2", level=1)
+        y = _arr(list(W.oshape), np.complex128, 7)
+        return W.H(y)
+    F["Wavelet.H.axes-order"] = [(lambda a=a: wav_adj(a)) for a in (None, (0, 1), (1, 0), (-1, -2), (1,))]
+
+    def wav_lvl(shape, a):
+        W = sp.linop.Wavelet(shape, axes=a, wave_name="haar")
+        y = _arr(list(W.oshape), np.complex128, 8)
+        return [np.array(W.oshape), W.H(y)]
+    F["Wavelet.default-level"] = [(lambda sh=sh, a=a: wav_lvl(sh, a)) for sh, a in (([2, 8], (1,)), ([8, 8], (1,)), ([2, 8], None), ([8, 2], (0,)))]
+    F["interpolate.width"] = [(lambda w=w, k=k, p=p: sp.interpolate(x2.copy(), co2.copy() + 1.0, kernel=k, width=w, param=p))
+                              for (w, k, p) in ((2, "spline", 1), (3, "spline", 1), (3, "kaiser_bessel", 4.0), ((2, 3), "spline", 2))]
+    from sigpy.mri.rf import trajgrad as tg
+
+    def spokes(k):
+        return tg.spokes_grad(np.array(k, dtype=float), 4, 5.0, 4.0, 15000.0, 4e-6)
+    F["trajgrad.designs"] = [lambda: tg.trap_grad(1.0 / 4257, 4.0, 15000.0, 4e-6)[0],
+                             lambda: spokes([[0, 0], [1, 1], [0, 0]]),
+                             lambda: spokes([[1, 1], [0, 0]]),
+                             lambda: tg.trap_grad(1.0 / 4257, 4.0, 15000.0, 4e-6)[0],
+                             lambda: tg.min_trap_grad(1e-4, 4.0, 15000.0, 4e-6)[0]]
+    F["resize.shapes"] = [(lambda o=o: sp.resize(x2.copy(), o)) for o in ([2, 3], [3, 2], [6], [4, 5], [1, 6])]
+    F["poisson.configs"] = [(lambda c=c: mr.samp.poisson((16, 16), 2, calib=c, seed=0, tol=0.3)) for c in ((0, 0), (4, 4), (4, 6))]
+    F["dirac-hanning"] = [lambda: sp.util.hanning([4, 5]), lambda: sp.util.triang([4, 5]), lambda: sp.util.hanning([5, 4])]
+    return F
+
+
 class _Lazy(dict):
     def __init__(self, mk):
         self._mk = mk
@@ -390,6 +438,7 @@ class _Lazy(dict):
 
 FUNCS = _Lazy(_mk_funcs)
 PROXES = _Lazy(_mk_proxes)
+FAMILIES = _Lazy(_mk_families)
 
 
 def _bytes_of(args):
@@ -548,7 +597,9 @@ def run_prochist(case, seed):
     name = case["name"]
     tok_b = "%s:%d" % (name, case["then"])
     tok_a = "%s:%d" % (name, case["first"])
-    solo = _spawn([tok_b])
+    if tok_b not in _solo:
+        _solo[tok_b] = _spawn([tok_b])
+    solo = _solo[tok_b]
     after = _spawn([tok_a, tok_b])
     viol = []
     if solo != after:
@@ -558,7 +609,36 @@ def run_prochist(case, seed):
     return dict(states=2, transitions=3, traces=2, nontrivial=True, outcome="ok" if not viol else "violation:process-history", viol=viol)
 
 
+def run_confhist(case, seed):
+    from vf import prochist
+    fam = case["family"]
+    fns = FAMILIES[fam]
+    viol = []
+    fresh = [_spawn(["fam:%s:%d" % (fam, i)]) for i in range(len(fns))]
+    states = len(fns)
+    trans = len(fns)
+    for a in range(len(fns)):
+        for b in range(len(fns)):
+            try:
+                fns[a]()
+            except Exception:
+                pass
+            try:
+                got = prochist.describe(fns[b]())
+            except Exception as e:
+                got = "raised " + type(e).__name__
+            trans += 2
+            if got != fresh[b]:
+                viol.append(dict(oracle="process-history", key=dict(site=fam, when="result depends on an earlier call in the same process"),
+                                 detail="%s: configuration %d gives [%s] as the only call of a fresh process but [%s] after configuration %d "
+                                        "(and whatever ran before) in this process" % (fam, b, fresh[b], got, a)))
+                return dict(states=states, transitions=trans, traces=trans, nontrivial=True, outcome="violation:process-history", viol=viol)
+    return dict(states=states, transitions=trans, traces=len(fns) ** 2, nontrivial=True, outcome="ok", viol=viol)
+
+
 def run_case(case, seed):
+    if case["kind"] == "confhist":
+        return run_confhist(case, seed)
     if case["kind"] == "prochist":
         return run_prochist(case, seed)
     if case["kind"] == "op":
